@@ -38,7 +38,7 @@ Queries == << R(<<11, -1>>, << <<0, -1>> >>, <<>>), R(<<11, -1>>, << <<1, -1>> >
 SetToSeqL(S) == LET RECURSIVE f(_) f(X) == IF X = {} THEN <<>> ELSE LET x == CHOOSE x \in X : TRUE IN <<x>> \o f(X \ {x}) IN f(S)
 Opt(cat, i) == IF i = 0 THEN <<>> ELSE <<cat[i]>>
 Content(f, r, c, p) == [f |-> Opt(FactCat, f), r |-> Opt(RuleCat, r), c |-> Opt(CheckCat, c), p |-> PolLists[p]]
-Contents == {Content(f, r, c, p) : f \in 0..2, r \in 0..2, c \in 0..(IF Shape = "snapshot" THEN 2 ELSE 1), p \in 1..2}
+Contents == {Content(f, r, c, p) : f \in 0..2, r \in 0..2, c \in 0..(IF Shape \in {"snapshot", "resnapshot"} THEN 2 ELSE 1), p \in 1..2}
 
 NewL(t, lim) == [tok |-> t, wf |-> {}, wr |-> <<>>, c |-> <<>>, p |-> <<>>, dirty |-> FALSE, bf |-> {}, br |-> <<>>, lim |-> lim]
 New(t) == NewL(t, NoLimit)
@@ -128,7 +128,7 @@ Eval == /\ stage = "eval"
            \/ \E q \in 1..Len(Queries) : ~EdgeQuery(az[1]) /\ Interesting(LimitFailsQuery(az[1])) /\ DoQuery(1, q)
               /\ stage' = IF round = Rounds_ THEN (IF Shape \in {"reset", "loadreset"} THEN (IF LimitFailsQuery(az[1]) THEN "done" ELSE "final") ELSE "save") ELSE "reset"
         /\ UNCHANGED <<snap, round>>
-SkipEval == /\ stage = "eval" /\ Shape = "snapshot" /\ stage' = "save" /\ UNCHANGED <<az, snap, hist, round>>
+SkipEval == /\ stage = "eval" /\ Shape \in {"snapshot", "resnapshot"} /\ stage' = "save" /\ UNCHANGED <<az, snap, hist, round>>
 \* C13: content added but never evaluated before Reset
 SkipEvalReset == /\ stage = "eval" /\ Shape \in {"reset", "loadreset"} /\ round < Rounds_ /\ stage' = "reset" /\ UNCHANGED <<az, snap, hist, round>>
 
@@ -149,7 +149,7 @@ DoSave == /\ stage = "save"
           /\ IF az[1].dirty THEN /\ Log(H("save", 1, [x |-> 0], [ok |-> FALSE])) /\ stage' = "done" /\ UNCHANGED <<az, snap>>
              ELSE /\ snap' = SnapOf(az[1]) /\ Log(H("save", 1, [x |-> 0], [ok |-> TRUE])) /\ stage' = "load" /\ UNCHANGED az
           /\ UNCHANGED round
-DoLoad == /\ stage = "load"
+DoLoad == /\ stage = "load" /\ Shape = "snapshot"
           /\ \E t \in 1..Len(Toks) :
                 LET b == AfterLoad(New(t), snap)
                     s == ProcOn(b)
@@ -161,7 +161,26 @@ DoLoad == /\ stage = "load"
                                    \o << H("authorize", 1, [x |-> 0], [v |-> {VerdictOf(ProcOn(az[1]))}]) >>
           /\ stage' = "done" /\ UNCHANGED <<snap, round>>
 
-Next == DoAdd \/ DoLoadRound \/ Eval \/ SkipEval \/ SkipEvalReset \/ DoReset \/ Final \/ DoSave \/ DoLoad
+\* C18 applied to an authorizer whose content arrived through LoadPolicies: the loaded (unevaluated) authorizer is saved again,
+\* its snapshot goes into a third fresh authorizer; all three must agree for the same token
+DoReLoad == /\ stage = "load" /\ Shape = "resnapshot"
+            /\ \E t \in 1..Len(Toks) :
+                LET b  == AfterLoad(New(t), snap)
+                    b3 == AfterLoad(New(t), SnapOf(b))
+                    e3 == AfterAuthorize(b3)
+                IN /\ az' = [az EXCEPT ![2] = AfterAuthorize(b)]
+                   /\ hist' = hist \o << H("new", 2, [t |-> t], [ok |-> TRUE]), H("load", 2, [x |-> 0], [ok |-> TRUE]),
+                                         H("save", 2, [x |-> 1], [ok |-> TRUE]),
+                                         H("new", 3, [t |-> t], [ok |-> TRUE]), H("load", 3, [x |-> 1], [ok |-> TRUE]),
+                                         H("authorize", 3, [x |-> 0], [v |-> {VerdictOf(ProcOn(b3))}]) >>
+                                   \o [q \in 1..Len(Queries) |-> H("query", 3, Queries[q], QueryExp(e3, q))]
+                                   \o << H("authorize", 2, [x |-> 0], [v |-> {VerdictOf(ProcOn(b))}]) >>
+                                   \o [q \in 1..Len(Queries) |-> H("query", 2, Queries[q], QueryExp(AfterAuthorize(b), q))]
+                                   \o << H("authorize", 1, [x |-> 0], [v |-> {VerdictOf(ProcOn(az[1]))}]) >>
+                   /\ Assert(SnapOf(b) = snap, "a snapshot of the restored authorizer differs from the snapshot it was restored from")
+            /\ stage' = "done" /\ UNCHANGED <<snap, round>>
+
+Next == DoReLoad \/ DoAdd \/ DoLoadRound \/ Eval \/ SkipEval \/ SkipEvalReset \/ DoReset \/ Final \/ DoSave \/ DoLoad
 Spec == Init /\ [][Next]_vars
 
 -----------------------------------------------------------------------------
@@ -170,6 +189,10 @@ ResetClean == stage = "add" => az[1] = NewL(az[1].tok, hist[1].arg.lim)
 \* C18: the restored authorizer decides like the original would for the same token (checked on equal tokens)
 SnapshotEquiv == stage = "done" /\ Shape = "snapshot" /\ snap.ok /\ az[2].tok # 0 /\ az[2].tok = az[1].tok =>
                     hist[Len(hist)].exp = hist[Len(hist) - Len(Queries) - 1].exp
+ResnapEquiv == stage = "done" /\ Shape = "resnapshot" /\ snap.ok =>
+                  LET n == Len(hist)  nq == Len(Queries) IN
+                  /\ \A j \in 0..nq : hist[n - 1 - nq + j].exp = hist[n - 2 - 2 * nq + j].exp      \* slot 2 and slot 3 agree (verdict, queries)
+                  /\ az[2].tok = az[1].tok => hist[n].exp = hist[n - 1 - nq].exp                \* and agree with the original
 \* a successful evaluation (authorize that ran, or query) before the save makes it refused
 Evaluated(e) == (e.op = "authorize" /\ e.exp.v # {"other"}) \/ (e.op = "query" /\ "rows" \in DOMAIN e.exp)
 SaveRefusedIffEvaluated == \A i \in 1..Len(hist) : hist[i].op = "save" =>
